@@ -302,3 +302,100 @@ func checkSymbolInfoAttach(c *core.Ctx, rule string) {
 	}
 	c.Floor(rule, n, 1, "call sites that change a SymbolInfo")
 }
+
+// ---------------------------------------------------------------- C09.evict
+
+// evictExceptions: Commit functions whose tree removals need no in-memory eviction (confirmed by
+// reading; one line of reason each).
+var evictExceptions = map[string]string{
+	"(*coreV2/state/accounts.Accounts).Commit":     "a zero balance: the in-memory big.Int 0 and the absent record read back as the same value",
+	"(*coreV2/state/validators.Validators).Commit": "records of validators dropped by SetNewValidators, which already replaced the in-memory list",
+	"(*coreV2/state/swap.SwapV2).Commit":           "order records and their price-index keys: the in-memory order caches are declined (C14); an emptied order is kept as a zero-volume tombstone that IsOrderAlreadyUsed understands",
+	"(*coreV2/state/swap.Swap).Commit":             "legacy V1 module (not wired into the live state)",
+}
+
+// checkEvict — when a module's Commit removes a record from the tree because the in-memory object
+// became empty, the in-memory entry has to go as well (delete from the module's map, or nil the
+// slot): a running node that keeps the emptied object and a restarted node that finds nothing
+// behave differently from then on (slot reuse, iteration order, "exists" answers).
+func checkEvict(c *core.Ctx, rule string) {
+	n := 0
+	for _, fn := range c.AllFns {
+		if fn.Synthetic != "" || fn.Name() != "Commit" || !strings.HasPrefix(core.PkgOf(fn), core.PkgState+"/") || fn.Signature.Recv() == nil {
+			continue
+		}
+		var evictions []ssa.Instruction
+		for _, f := range append([]*ssa.Function{fn}, fn.AnonFuncs...) {
+			for _, b := range f.Blocks {
+				for _, in := range b.Instrs {
+					switch x := in.(type) {
+					case *ssa.Call:
+						if bi, ok := x.Call.Value.(*ssa.Builtin); ok && bi.Name() == "delete" {
+							if strings.Contains(core.Path(x.Call.Args[0]), ".") {
+								evictions = append(evictions, x)
+							}
+						}
+					case *ssa.Store:
+						if k, ok := x.Val.(*ssa.Const); ok && k.Value == nil {
+							switch x.Addr.(type) {
+							case *ssa.IndexAddr, *ssa.FieldAddr:
+								if _, isPtr := x.Val.Type().Underlying().(*types.Pointer); isPtr {
+									evictions = append(evictions, x)
+								}
+							}
+						}
+					}
+				}
+			}
+		}
+		for _, s := range core.Sites(fn) {
+			if !strings.HasSuffix(s.Callee, "iavl.MutableTree).Remove") {
+				continue
+			}
+			n++
+			key := core.ShortFn(fn) + "/Remove"
+			if reason, ok := evictExceptions[core.ShortFn(fn)]; ok {
+				c.OK(rule, key, s.Pos(), "confirmed exception: "+reason)
+				continue
+			}
+			// candidates: the bulk removal of a deleted candidate's records (iterated key list)
+			if strings.HasSuffix(core.ShortFn(fn), "candidates.Candidates).Commit") && strings.Contains(core.Path(s.Arg(0)), "[") {
+				c.OK(rule, key+"/deleted-candidate-records", s.Pos(), "records of a candidate that DeleteCandidate already removed from the in-memory table")
+				continue
+			}
+			paired := false
+			sb := s.Block()
+			for _, e := range evictions {
+				eb := e.Block()
+				if eb.Parent() != fn {
+					continue
+				}
+				if eb == sb || sb.Dominates(eb) && sameGates(s.Instr, e) || eb.Dominates(sb) && sameGates(s.Instr, e) {
+					paired = true
+				}
+			}
+			c.Check(paired, rule, key, s.Pos(), "the record removed from the tree is evicted from memory in the same branch", "a record is removed from the tree but its in-memory entry is kept: a node that keeps running and a node restarted from disk diverge (the restarted one has no such entry)")
+		}
+	}
+	c.Floor(rule, n, 8, "tree removals in module Commit functions")
+}
+
+// sameGates: both instructions are governed by the same set of conditional edges.
+func sameGates(a, b ssa.Instruction) bool {
+	ga, gb := core.GatesBefore(a), core.GatesBefore(b)
+	if len(ga) != len(gb) {
+		return false
+	}
+	for _, x := range ga {
+		found := false
+		for _, y := range gb {
+			if x.If == y.If && x.PassTrue == y.PassTrue {
+				found = true
+			}
+		}
+		if !found {
+			return false
+		}
+	}
+	return true
+}
